@@ -183,7 +183,7 @@ pub fn pe_fixed_width(enc: u8, addr_size: u8) -> Option<usize> {
 /// Raw value of the format nibble (signed formats are sign-extended to 64 bits).
 pub fn pe_read_value(enc: u8, b: &[u8], le: bool, addr_size: u8) -> Result<(u64, usize), PeErr> {
     match enc & 0x0f {
-        0x00 => uint(b, le, addr_size as usize).map(|v| (v, addr_size as usize)).ok_or(PeErr::Eof),
+        0x00 => uint(b, le, (addr_size as usize).min(8)).map(|v| (v, (addr_size as usize).min(8))).ok_or(PeErr::Eof),
         0x01 => match uleb_dec(b) {
             Some((v, n)) => Ok((v, n)),
             None => Err(if b.iter().take(10).any(|x| x & 0x80 == 0) || b.len() >= 10 { PeErr::BadLeb } else { PeErr::Eof }),
